@@ -432,3 +432,76 @@ Lemma prefix_witness_one_ticker :
 Proof.
   eexists. eexists. split; [vm_compute; reflexivity|]. vm_compute. repeat split; reflexivity.
 Qed.
+
+(* ---- one refill source per limiter ---- *)
+Definition one_source (s : kstate) : Prop :=
+  exists r, k_tickers s = mkT (k_interval s) true :: r /\ sumz firing_of r = 0.
+
+Lemma one_source_init l iv : one_source (kinit l iv).
+Proof. exists []. split; reflexivity. Qed.
+
+Lemma kupdate_one_source s l iv : one_source s -> one_source (kupdate true s l iv).
+Proof.
+  intros (r & Ht & Hr). unfold kupdate.
+  destruct ((l =? k_limit s) && (iv =? k_interval s)); [exists r; auto|].
+  destruct (iv =? k_interval s) eqn:E.
+  - apply Z.eqb_eq in E. subst iv. exists r. cbn. auto.
+  - cbn. rewrite Ht. cbn. eexists. split; [reflexivity|]. cbn. exact Hr.
+Qed.
+
+Lemma kupdates_one_source us : forall s, one_source s -> one_source (kupdates true s us).
+Proof.
+  induction us as [|[l iv] r IH]; intros s H; cbn; [exact H|].
+  apply IH. apply kupdate_one_source. exact H.
+Qed.
+
+Lemma one_source_facts s w : one_source s ->
+  firing s = 1 /\ fires_in w s = w / k_interval s + 1.
+Proof.
+  intros (r & Ht & Hr). unfold firing, fires_in. rewrite Ht.
+  change (sumz firing_of (mkT (k_interval s) true :: r)) with (1 + sumz firing_of r).
+  change (sumz (fires_of w) (mkT (k_interval s) true :: r))
+    with ((w / k_interval s + 1) + sumz (fires_of w) r).
+  split; [lia|].
+  assert (Z0 : sumz (fires_of w) r = 0).
+  { clear Ht. induction r as [|t r IH]; [reflexivity|].
+    change (sumz (fires_of w) (t :: r)) with (fires_of w t + sumz (fires_of w) r).
+    assert (0 <= sumz firing_of r) by (apply sumz_nonneg; intros x; unfold firing_of; destruct (t_firing x); lia).
+    change (firing_of t + sumz firing_of r = 0) in Hr. unfold fires_of at 1.
+    unfold firing_of at 1 in Hr.
+    destruct (t_firing t); [lia|]. rewrite IH; lia. }
+  lia.
+Qed.
+
+Lemma ticker_sources l iv us w :
+  let s := kupdates true (kinit l iv) us in
+  firing s = 1 /\ fires_in w s = w / k_interval s + 1.
+Proof. apply one_source_facts. apply kupdates_one_source. apply one_source_init. Qed.
+
+(* every interval change leaves the goroutine of the stopped ticker behind *)
+Lemma kupdate_goroutines b s l iv :
+  goroutines (kupdate b s l iv) = goroutines s + (if iv =? k_interval s then 0 else 1) /\
+  k_limit (kupdate b s l iv) = l /\ k_interval (kupdate b s l iv) = iv.
+Proof.
+  unfold kupdate, goroutines.
+  destruct (l =? k_limit s) eqn:El; destruct (iv =? k_interval s) eqn:Ei; cbn [andb];
+    try apply Z.eqb_eq in El; try apply Z.eqb_eq in Ei; subst; cbn [k_tickers k_limit k_interval].
+  - repeat split; lia.
+  - destruct b; [destruct (k_tickers s); cbn [stop_head length]|cbn [length]]; repeat split; lia.
+  - repeat split; lia.
+  - destruct b; [destruct (k_tickers s); cbn [stop_head length]|cbn [length]]; repeat split; lia.
+Qed.
+
+Lemma ticker_goroutines b us : forall s,
+  goroutines (kupdates b s us) = goroutines s + interval_changes (k_limit s) (k_interval s) us.
+Proof.
+  induction us as [|[l iv] r IH]; intros s; cbn [kupdates interval_changes]; [lia|].
+  rewrite IH. destruct (kupdate_goroutines b s l iv) as (Hg & Hl & Hi). rewrite Hg, Hl, Hi. lia.
+Qed.
+
+(* without the stopTicker call: capacity 100, 10 ms -> 100 ms: two firing sources, 112
+   possible refills per second instead of 11 (each worth the NEW amount once = 10) *)
+Lemma no_stop_two_sources :
+  let s := kupdates false (kinit 100 10000000) [(100, 100000000)] in
+  firing s = 2 /\ fires_in 1000000000 s = 112 /\ 1000000000 / k_interval s + 1 = 11.
+Proof. vm_compute. repeat split; reflexivity. Qed.
